@@ -92,6 +92,20 @@ CHECKS = {
              "server returns exactly the miss result; the client stays usable).",
         technique="TLA+ contract monitor evaluated by TLC over recorded executions; exhaustive single-fault enumeration",
         design_ref="4 C07", note=CONN_NOTE),
+    "C08": dict(
+        category="model_checking",
+        text="(A) TLC explores ALL interleavings of the statement-level model of ObjectPool (spec/PoolThreads.tla: every statement of get / "
+             "release / destroy / clear is one step, the lock taken and dropped where the code does; 2 threads x every pair of 1-2-operation "
+             "programs over {ok, fail, quit-style destroy+release, clear}, 3 threads x 1 operation, max_size 1-2) against the contract monitor "
+             "spec/PoolRule.tla with TLC's deadlock check on; the lock-free variant of the same model must be rejected (non-vacuity). (B) The REAL "
+             "ObjectPool and PooledClient run under a deterministic scheduler (sys.monitoring LINE events -- thorough: INSTRUCTION events -- in "
+             "pool.py, get_and_release and PooledClient's methods, the lock through lock_generator=, every fake-socket call): stateless DFS over all "
+             "schedules within a preemption bound (quick 2 / thorough 3, quick with an execution budget per thread program) of the same thread "
+             "programs; every distinct interleaved execution is validated by TLC against PoolRule (held by one thread, no duplicates, size <= "
+             "max_pool_size, only the capacity error and only when full, never hand out / close twice a closed connection, no deadlock, at the end "
+             "every connection idle in the pool or closed exactly once).",
+        technique="TLA+ statement-level pool model model-checked over all interleavings; deterministic scheduling of the real code (sys.monitoring); TLC trace validation of every distinct interleaving",
+        design_ref="4 C08", note=TRUST + " Preemption between bytecodes/lines and at lock and socket operations, not inside C calls (GIL)."),
     "C09": dict(
         category="model_checking",
         text="Every sequence (length 2 quick / 3 thorough) of PooledClient operations x per-operation fault choice x idle gaps below/at/above "
